@@ -372,6 +372,20 @@ def _set_attr(obj: Any, attr: str, value: Any, private_copy: bool = False):
         setattr(obj, attr, value)
 
 
+def resolve_attr_spec(attr_spec: Attr, instance: Any) -> Attr:
+    """
+    Helper methods are generated for the class that owns an attribute, whereas
+    subclasses may refine its specification (e.g. override its preparers). Look
+    up the specification that applies to `instance`, so that helper methods
+    treat values exactly as attribute assignment does.
+    """
+    metadata = getattr(type(instance), "__spec_class__", None)
+    attrs = getattr(metadata, "attrs", None)
+    if attrs:
+        return attrs.get(attr_spec.name, attr_spec)
+    return attr_spec
+
+
 def prepare_attr_value(
     attr_spec: Attr, instance: Any, value: Any, attrs: Optional[Dict[str, Any]] = None
 ) -> Any:
@@ -394,6 +408,7 @@ def prepare_attr_value(
     """
     if value is UNCHANGED and not attrs:
         return UNCHANGED  # nothing to prepare; `mutate_attr` treats this as a no-op
+    attr_spec = resolve_attr_spec(attr_spec, instance)
     value = mutate_value(
         old_value=MISSING,
         new_value=value,
